@@ -150,6 +150,8 @@ class PID_GH(BasePID):
             return mutual_information(d, sources[0], target)
         md = d.coalesce(sources)
         upper_bound = prod(len(a) for a in md.alphabet) + 1
+        # (at least one attempt, also when every source is constant)
+        upper_bound = max(upper_bound, md.outcome_length() + 1)
         for bound in range(upper_bound, md.outcome_length(), -1):
             try:
                 gho = GHOptimizer(d, sources, target, bound=bound)
@@ -157,6 +159,9 @@ class PID_GH(BasePID):
                 break
             except OptimizationException:
                 continue
+        # the optimised distribution is unnamed: one variable per source, then
+        # the target, then Q
+        t = len(sources)
         q = len(sources) + 1
         od = gho.construct_distribution()
-        return mutual_information(od, target, [q])
+        return mutual_information(od, [t], [q])
